@@ -157,8 +157,11 @@ func (con *Connection) Read(b []byte) (int, error) {
 func (con *Connection) Close() error {
 	log.Debug.Println("Close connection and remove session")
 
-	// Remove session from the context
-	con.context.DeleteSessionForConnection(con.connection)
+	// Remove the session of this connection from the context. A newer connection
+	// from the same address may have taken over the entry: that one stays.
+	if s := con.context.GetSessionForConnection(con.connection); s != nil && s.Connection() == net.Conn(con) {
+		con.context.DeleteSessionForConnection(con.connection)
+	}
 
 	return con.connection.Close()
 }
